@@ -3,8 +3,8 @@ import Tuc.Props.C03Parsed
 /-!
 # C13 at the level of runs — `-M` (fixed memory)
 
-(Separate from `Tuc.Props.C13RunsFast` only because `Tuc.Props.C02` and `Tuc.Props.C03Refine`
-cannot be imported together: both declare `Tuc.mem_boundsOnly`.)
+(Separate from `Tuc.Props.C13RunsFast` for historical reasons: `Tuc.Props.C02` and
+`Tuc.Props.C03Refine` once declared the same name; `Tuc.AllProps` now imports everything together.)
 -/
 namespace Tuc
 open Tuc.Spec
